@@ -2,7 +2,7 @@
    Statements only (copied from the lemma libraries); every proof is a bare
    `exact`; see the cited files in coq/proofs for the proofs. *)
 From Coq Require Import List NArith ZArith Bool Arith Sorting.Sorted Sorting.Permutation.
-From D2P Require Import Str Err Xml TableTypes Tables Fmt NumFmt Bullets Merge Collector Walk Iter Output ShapeFacts TokFacts FrameFacts BulletsFacts NumFmtFacts MergeFacts TotalFacts TablesFacts GridFacts TotalTables PyVal Source SourceBase SourceFmt SourceForms.
+From D2P Require Import Str Err Xml TableTypes Tables Fmt NumFmt Bullets Merge Collector Walk Iter Output ShapeFacts TokFacts FrameFacts BulletsFacts NumFmtFacts MergeFacts TotalFacts TablesFacts GridFacts TotalTables PyVal Source SourceBase SourceElem SourceForms.
 Import ListNotations.
 
 (* for EVERY table-free, comment-range-free element tree: if the evaluation of each single element succeeds (required ids present, numbers parse, check-box and drop-down values known, formatting renders to non-blank tags), the whole walk succeeds - exceptions never emerge from the state machine, whatever the nesting *)
